@@ -37,15 +37,25 @@
 #define FCODE(mod, f) ((mod)->code + (mod)->functions[f].code_offset)
 #define FEND(mod, f) ((mod)->functions[f].code_length)
 #define JTGT(mod, f, p, o) ((int64_t)(p) + (int64_t)(int32_t)LE32(FCODE(mod, f) + (p) + (o)))
+/* primitive forms over a code pointer c (start of the function), its length end, an offset p and the table sizes */
+#define JTGT_P(c, p, o) ((int64_t)(p) + (int64_t)(int32_t)LE32((c) + (p) + (o)))
+#define IOKP_DECODE(c, end, p) ((p) < (end) && ROW_M((c)[p]).name != NULL && SPEC_LEN_M((c)[p]) <= (end) - (p))
+#define IOKP_JMP(c, end, p) (!IOKP_DECODE(c, end, p) ? 0 : ((c)[p] != OP_JMP && (c)[p] != OP_JMP_TRUE && (c)[p] != OP_JMP_FALSE) || \
+        (JTGT_P(c, p, 1) >= 0 && JTGT_P(c, p, 1) <= (int64_t)(end)))
+#define IOKP_MATCH(c, end, p) (!IOKP_DECODE(c, end, p) ? 0 : (c)[p] != OP_MATCH_TAG || (JTGT_P(c, p, 3) >= 0 && JTGT_P(c, p, 3) <= (int64_t)(end)))
+#define IOKP_CALL(c, end, p, fcount) (!IOKP_DECODE(c, end, p) ? 0 : ((c)[p] != OP_CALL && (c)[p] != OP_CLOSURE_NEW) || LE32((c) + (p) + 1) < (fcount))
+#define IOKP_STR(c, end, p, scount) (!IOKP_DECODE(c, end, p) ? 0 : (c)[p] != OP_PUSH_STR || LE32((c) + (p) + 1) < (scount))
+#define IOKP_EXTERN(c, end, p, icount) (!IOKP_DECODE(c, end, p) ? 0 : (c)[p] != OP_CALL_EXTERN || LE32((c) + (p) + 1) < (icount))
+#define IOKP_LOCAL(c, end, p, lcount) (!IOKP_DECODE(c, end, p) ? 0 : ((c)[p] != OP_LOAD_LOCAL && (c)[p] != OP_STORE_LOCAL) || LE16((c) + (p) + 1) < (lcount))
+
 #define OPC(mod, f, p) (FCODE(mod, f)[p])
-#define IOK_DECODE(mod, f, p) ((p) < FEND(mod, f) && ROW_M(OPC(mod, f, p)).name != NULL && SPEC_LEN_M(OPC(mod, f, p)) <= FEND(mod, f) - (p))
-#define IOK_JMP(mod, f, p) ((OPC(mod, f, p) != OP_JMP && OPC(mod, f, p) != OP_JMP_TRUE && OPC(mod, f, p) != OP_JMP_FALSE) || \
-        (JTGT(mod, f, p, 1) >= 0 && JTGT(mod, f, p, 1) <= (int64_t)FEND(mod, f)))
-#define IOK_MATCH(mod, f, p) (OPC(mod, f, p) != OP_MATCH_TAG || (JTGT(mod, f, p, 3) >= 0 && JTGT(mod, f, p, 3) <= (int64_t)FEND(mod, f)))
-#define IOK_CALL(mod, f, p) ((OPC(mod, f, p) != OP_CALL && OPC(mod, f, p) != OP_CLOSURE_NEW) || LE32(FCODE(mod, f) + (p) + 1) < (mod)->function_count)
-#define IOK_STR(mod, f, p) (OPC(mod, f, p) != OP_PUSH_STR || LE32(FCODE(mod, f) + (p) + 1) < (mod)->string_count)
-#define IOK_EXTERN(mod, f, p) (OPC(mod, f, p) != OP_CALL_EXTERN || LE32(FCODE(mod, f) + (p) + 1) < (mod)->import_count)
-#define IOK_LOCAL(mod, f, p) ((OPC(mod, f, p) != OP_LOAD_LOCAL && OPC(mod, f, p) != OP_STORE_LOCAL) || LE16(FCODE(mod, f) + (p) + 1) < (mod)->functions[f].local_count)
+#define IOK_DECODE(mod, f, p) IOKP_DECODE(FCODE(mod, f), FEND(mod, f), p)
+#define IOK_JMP(mod, f, p) IOKP_JMP(FCODE(mod, f), FEND(mod, f), p)
+#define IOK_MATCH(mod, f, p) IOKP_MATCH(FCODE(mod, f), FEND(mod, f), p)
+#define IOK_CALL(mod, f, p) IOKP_CALL(FCODE(mod, f), FEND(mod, f), p, (mod)->function_count)
+#define IOK_STR(mod, f, p) IOKP_STR(FCODE(mod, f), FEND(mod, f), p, (mod)->string_count)
+#define IOK_EXTERN(mod, f, p) IOKP_EXTERN(FCODE(mod, f), FEND(mod, f), p, (mod)->import_count)
+#define IOK_LOCAL(mod, f, p) IOKP_LOCAL(FCODE(mod, f), FEND(mod, f), p, (mod)->functions[f].local_count)
 /* INSTR_OK = conjunction of the seven parts; each part is proved by its own obligation
  * (-DVERIF_IOK=<part>) because the conjunction makes symbolic execution of the contract itself too slow */
 #ifndef VERIF_IOK
